@@ -599,17 +599,23 @@ def search_check_pv(prop, judged, tier, seed, build):
     search_check(prop, judged, tier, seed, build, pv=True)
 
 
-def search_check(prop, judged, tier, seed, build, pv=False):
-    """build(run, vh, quick, rnd, classes, pools, flat, games) -> list of (label, histories)"""
+def search_check(prop, judged, tier, seed, build, pv=False, uci_extra=None):
+    """build(run, vh, quick, rnd, classes, pools, flat, games) -> list of (label, histories);
+    uci_extra(run, quick, rnd): a batch on the real binary that needs no in-process harness"""
     import random
     run = core.Run(prop, tier, seed)
-    vh = prepare(optional=(prop == "C19"), run=run)
+    vh = prepare(optional=(prop == "C19" or uci_extra is not None), run=run)
     quick = tier == "quick"
     rnd = random.Random(seed)
     game.trace_dir(prop)
-    batches = build(run, vh, quick, rnd)
+    if vh is None and prop != "C19":
+        batches = []          # decided on the binary alone (uci_extra)
+    else:
+        batches = build(run, vh, quick, rnd)
     if vh is None:
         batches = []
+    if uci_extra is not None:
+        uci_extra(run, quick, rnd)
     total = 0
     keys = set()
     alljobs = []
@@ -726,7 +732,29 @@ def c07(tier, seed):
         run.cov["stop_indices_per_position"] = {f[:30]: totals.get((f, tuple(p)), 0) for f, p in pos[:8]}
         inter = srch.interior_histories(rnd, pos[:8 if quick else 30], 12 if quick else 60, 3 if quick else 6)
         return [("scn", hs), ("stopsweep", sweep), ("after-interrupt", inter)]
-    search_check("C07", {"C07"}, tier, seed, build)
+
+    def over_uci(run, quick, rnd):
+        # the same question on the real binary: `go infinite` with the stop flag lowered by the hook at the n-th node
+        # entry of each search (VERIF_STOP_AFTER=n), over game-like flows (the table is inherited from search to search);
+        # TraceSession judges each bestmove against the position that was set
+        binary = core.build_bin(False)
+        flows = [["position startpos", "position startpos moves e2e4 e7e5", "position startpos moves e2e4 c7c5 g1f3"],
+                 ["position fen r3k2r/p1ppqpb1/bn2pnp1/3PN3/1p2P3/2N2Q1p/PPPBBPPP/R3K2R w KQkq - 0 1",
+                  "position fen r3k2r/p1ppqpb1/bn2pnp1/3PN3/1p2P3/2N2Q1p/PPPBBPPP/R3K2R w KQkq - 0 1 moves e1g1 e8c8"],
+                 ["position fen 8/2p5/3p4/KP5r/1R3p1k/8/4P1P1/8 w - - 0 1", "position fen 4k3/8/8/8/8/8/1N6/r3K3 w - - 0 1",
+                  "position fen 6k1/5ppp/8/8/8/8/5PPP/3R2K1 w - - 0 1", "position fen 7k/5Q2/6K1/8/8/8/8/8 b - - 0 1"]]
+        ns = [0, 1, 2, 3, 5, 8, 13, 21, 34, 55, 89, 144, 233, 377] if quick else list(range(0, 60)) + list(range(60, 1200, 17))
+        sessions = []
+        for n in ns:
+            for fi, flow in enumerate(flows):
+                steps = []
+                for posn in flow:
+                    steps += [{"send": posn, "afterbest": True}, {"send": "go infinite", "afterbest": True}, {"waitbest": 20}]
+                sessions.append({"id": "stop-at-poll-%d-flow%d" % (n, fi), "binary": binary, "env": {"VERIF_STOP_AFTER": str(n)}, "steps": steps + [{"quit": True}]})
+        outs, nev = run_sessions(run, "C07", sessions, {"C07"}, "stop-uci")
+        run.cov["evaluations"] = run.cov.get("evaluations", 0) + sum(len(f) for f in flows) * len(ns)
+        run.cov["uci_stop_sweep"] = {"stop_indices": len(ns), "flows": len(flows), "searches": sum(len(f) for f in flows) * len(ns)}
+    search_check("C07", {"C07"}, tier, seed, build, uci_extra=over_uci)
 
 
 @check("C08")
@@ -1394,6 +1422,16 @@ def c14(tier, seed):
                 {"send": "position startpos"}, {"send": "go infinite"}, {"send": "isready"}, {"send": "ucinewgame"}, {"waitbest": 8},
                 {"send": "position fen 8/8/8/4k3/8/8/4K3/8 w - - 0 1"}, {"send": "go infinite"}, {"sleep": 1.0}, {"send": "isready"}, {"send": "stop"}, {"waitbest": 8},
                 {"send": "position startpos"}, {"send": "go infinite"}, {"quit": True}]})
+    # a long budget cut short: after `stop` (or after an early answer at the depth limit) the stdin loop must be free at once -
+    # nothing may go on waiting for the rest of a 100 s move time or an hour on the clock
+    for b, bn in ((binary, "rel"), (checked, "chk")):
+        sessions.append({"id": "longbudget-" + bn, "binary": b, "env": {}, "steps": [
+            {"send": "position startpos"}, {"send": "go movetime 100000"}, {"sleep": 0.3}, {"send": "stop"}, {"waitbest": 8}, {"send": "isready"},
+            {"send": "position startpos moves e2e4", "afterbest": True}, {"send": "go depth 2", "afterbest": True}, {"waitbest": 8},
+            {"send": "position startpos"}, {"send": "go wtime 3600000 btime 3600000 winc 0 binc 0"}, {"sleep": 0.3}, {"send": "stop"}, {"waitbest": 8},
+            {"send": "isready"},
+            {"send": "position startpos"}, {"send": "go depth 2 movetime 100000"}, {"waitbest": 8}, {"send": "stop"}, {"send": "isready"},
+            {"send": "position startpos moves d2d4", "afterbest": True}, {"send": "go depth 1", "afterbest": True}, {"waitbest": 8}, {"quit": True}]})
     # replies of the stdin loop while the search thread is printing: bursts of isready during searches that print
     # hundreds of info lines a second (tiny positions)
     for b, bn in ((binary, "rel"), (checked, "chk")):
